@@ -717,6 +717,11 @@ func propTest(t *testing.T, prop string, body func(ev *Ev)) {
 			t.Fail()
 		}
 	}()
+	if err := setupProp(prop); err != nil {
+		ev.HarnessError("%v", err)
+		t.Fail()
+		return
+	}
 	body(ev)
 	if len(ev.violations) > 0 || len(ev.harnessErrors) > 0 {
 		t.Fail()
@@ -746,6 +751,10 @@ func TestReplay(t *testing.T) {
 	fn, ok := registry[doc.Property+"/"+doc.Kind]
 	if !ok {
 		fmt.Printf("HARNESS-ERROR unknown kind %s/%s\n", doc.Property, doc.Kind)
+		t.FailNow()
+	}
+	if err := setupProp(doc.Property); err != nil {
+		fmt.Printf("HARNESS-ERROR %v\n", err)
 		t.FailNow()
 	}
 	err = fn(doc.Case)
